@@ -532,7 +532,7 @@ def run_wb(rep, tier, rng, bdir, replay_case=None):
     if replay_case is not None:
         cases = [replay_case]
     else:
-        nbase = {"quick": 60, "thorough": 600}[tier]
+        nbase = {"quick": 60, "thorough": 8000}[tier]
         weights = [w for _, _, w in GENS]
         cases = []
         kinds = []
@@ -663,6 +663,13 @@ def run_api(rep, tier, rng, bdir):
         progs = allp
     t0 = time.time()
     base, runs = api_sweep(binpath, progs, rep)
+    # background threads allocate too, so the k-th allocation is not the same one in every
+    # run: the thorough tier repeats the whole sweep
+    for _ in range({"quick": 0, "thorough": 5}[tier]):
+        b2, r2 = api_sweep(binpath, progs, rep)
+        runs += r2
+        for p in progs:
+            base[p] += b2[p]
     rep.cov["api_programs"] = progs
     rep.cov["api_runs"] = len(runs)
     rep.cov["api_wall_s"] = round(time.time() - t0, 1)
@@ -731,7 +738,8 @@ def run_api(rep, tier, rng, bdir):
 
 # ------------------------------------------------------------------ entry point
 def run(tier, seed, replay=None):
-    rep = Report(PROP, tier, seed, level="proof (modelled allocation sites only) + site table (shape) + fault enumeration (not proof)")
+    rep = Report(PROP, tier, seed, level="proof")
+    rep.cov["level_detail"] = "proof for the modelled allocation sites only + site table (shape) + fault enumeration over API programs (not proof)"
     if os.environ.get("C20_EXTRA_KNOWN"):     # self-test only: treat the proposed known: lines as accepted
         for l in open(os.environ["C20_EXTRA_KNOWN"]):
             m = re.match(r"known:\s+property=C20\s+key=(\S+)\s+(.*)", l.strip())
